@@ -89,9 +89,14 @@ func runWLReps(em *Emitter, id int, sc Scenario, seed int64) {
 		case "", "char":
 		case "SFNone":
 			cell.SepKind = "none"
-		case "recipe":
+		case "recipe", "custom0":
 			cell.SepKind = "recipe"
 			cell.SepRecipe = w.SepRecipe
+			if w.Sep == "custom0" {
+				cell.SepZeroEnt = 1
+			}
+		case "customlist":
+			cell.SepKind = "list"
 		default:
 			if pr, ok := presetRecipes[w.Sep]; ok {
 				cs := CharSpecOf(pr)
@@ -174,6 +179,8 @@ func wlCellEvents(id int, sc Scenario, seed int64, pre *spg.WLRecipe, preWL *spg
 		if w.Sep == "custom0" {
 			cell.SepZeroEnt = 1
 		}
+	case "customlist":
+		cell.SepKind = "list"
 	default:
 		if pr, ok := presetRecipes[w.Sep]; ok {
 			cs := CharSpecOf(pr)
